@@ -26,7 +26,7 @@ MonInit(cfg) ==
    eclosing |-> {}, emaybe |-> 0,
    expC |-> <<>>, expE |-> <<>>, H |-> {}, stray |-> <<>>,
    rel |-> 0, relwin |-> FALSE,
-   lost |-> FALSE, idleOk |-> FALSE, sctx |-> "", ccalled |-> FALSE, lline |-> <<>>, cprev |-> <<-1>>, eprev |-> <<-1>>, lastfail |-> <<-1, -1>>, lout |-> [k |-> "none", c |-> -1, args |-> <<>>, why |-> ""], owed |-> {}, rt |-> FALSE,
+   lost |-> FALSE, idleOk |-> FALSE, eunc |-> FALSE, sctx |-> "", ccalled |-> FALSE, lline |-> <<>>, cprev |-> <<-1>>, eprev |-> <<-1>>, lastfail |-> <<-1, -1>>, lout |-> [k |-> "none", c |-> -1, args |-> <<>>, why |-> ""], owed |-> {}, rt |-> FALSE,
    bad |-> <<>>, ulog |-> <<>>, uncl |-> 0, txns |-> 0, units |-> 0, evs |-> 0, last |-> <<>>]
 
 AddBad(m, p, why) == [m EXCEPT !.bad = IF Len(@) < 12 THEN Append(@, [p |-> p, why |-> why, at |-> m.n, sid |-> m.cfg.sid]) ELSE @,
@@ -194,6 +194,7 @@ StartEv(m) ==
 (***************************************************************************)
 TriggerRet(m, c, t, ret) ==
   IF m.lost THEN m
+  ELSE IF m.eunc THEN (IF ret = S_OK THEN StartEv([m EXCEPT !.q = Append(@, <<c, t>>), !.idleOk = FALSE]) ELSE m)
   ELSE IF ret = S_OK THEN
           IF Len(m.q) >= m.cfg.qcap THEN AddBad(m, "C13", "trigger accepted although the queue is full")
           ELSE StartEv([m EXCEPT !.q = Append(@, <<c, t>>), !.idleOk = FALSE])
@@ -201,7 +202,7 @@ TriggerRet(m, c, t, ret) ==
           IF Len(m.q) + m.emaybe < m.cfg.qcap THEN AddBad(m, "C13", "trigger refused although the queue has room") ELSE m
   ELSE m
 FullRet(m, ret) ==
-  IF m.lost THEN m
+  IF m.lost \/ m.eunc THEN m
   ELSE IF ret = S_OK /\ Len(m.q) >= m.cfg.qcap THEN AddBad(m, "C13", "is_full says room, queue is full")
   ELSE IF ret = S_FULL /\ Len(m.q) + m.emaybe < m.cfg.qcap THEN AddBad(m, "C13", "is_full says full, queue has room")
   ELSE m
@@ -209,12 +210,12 @@ InQ(m, c, t) == \E i \in 1..Len(m.q) : m.q[i][1] = c /\ (t = CT_NONE \/ m.q[i][2
 InProg(m, c, t) == m.eph # "idle" /\ m.ec = c /\ (t = CT_NONE \/ m.et = t)
 Closing(m, c, t) == \E x \in m.eclosing : x[1] = c /\ (t = CT_NONE \/ x[2] = t)
 BufferedRet(m, c, t, ret) ==
-  IF m.lost THEN m
-  ELSE IF ret = S_OK /\ (InQ(m, c, t) \/ (InProg(m, c, t) /\ m.emaybe = 0)) THEN AddBad(m, "C13", "event pending but reported as not buffered")
-  ELSE IF ret = S_BUSY /\ ~InQ(m, c, t) /\ ~InProg(m, c, t) /\ ~Closing(m, c, t) THEN AddBad(m, "C13", "event reported as buffered but none is pending")
+  IF m.lost \/ m.eunc THEN m
+  ELSE IF ret = S_OK /\ (InQ(m, c, t) \/ (InProg(m, c, t) /\ m.emaybe = 0)) THEN AddBad(m, "C13", <<"event pending but reported as not buffered", c, t, m.q, m.eph, m.ec, m.emaybe>>)
+  ELSE IF ret = S_BUSY /\ ~InQ(m, c, t) /\ ~InProg(m, c, t) /\ ~Closing(m, c, t) THEN AddBad(m, "C13", <<"event reported as buffered but none is pending", c, t>>)
   ELSE m
 ProcRet(m, fsm, ret) ==
-  IF m.lost \/ fsm # 1 THEN m
+  IF m.lost \/ m.eunc \/ fsm # 1 THEN m
   ELSE IF ret = -1 \/ (m.eph # "idle" /\ ret = m.ec) \/ (\E x \in m.eclosing : x[1] = ret) THEN m
   ELSE AddBad(m, "C13", "processed command is not an event in progress")
 
@@ -307,7 +308,9 @@ MatchByte(m, b) ==
                IF done = {} THEN [m EXCEPT !.H = H1]
                ELSE LET dc == {h \in done : h.who = "c"}  de == {h \in done : h.who = "e"}
                         alive == H1 \ done
-                    IN IF dc # {} /\ de # {} THEN [Commit(m, CHOOSE h \in dc : TRUE) EXCEPT !.eclosing = IF m.ec >= 0 THEN @ \cup {<<m.ec, m.et>>} ELSE @, !.emaybe = 1]
+                    IN IF dc # {} /\ de # {} THEN
+                          \* identical units owed by both producers: which one this was cannot be told, so nothing can be said about the event queue until the next quiescent point
+                          [Commit(m, CHOOSE h \in dc : TRUE) EXCEPT !.eclosing = IF m.ec >= 0 THEN @ \cup {<<m.ec, m.et>>} ELSE @, !.emaybe = 1, !.eunc = TRUE]
                        ELSE LET h == CHOOSE h \in done : TRUE IN
                             IF \E g \in alive : g.who # h.who THEN Unclassified(m)
                             ELSE Commit(m, h)
@@ -533,7 +536,7 @@ FoldEvents(m, evs) == IF evs = <<>> THEN m ELSE FoldEvents(OnEvent(m, Head(evs))
 
 Resync(m) == [m EXCEPT !.lost = FALSE, !.cph = "idle", !.cc = -1, !.pend = FALSE, !.expC = <<>>, !.expE = <<>>, !.H = {},
                       !.q = <<>>, !.eph = "idle", !.ec = -1, !.eclosing = {}, !.emaybe = 0, !.rel = 0, !.relwin = FALSE,
-                      !.owed = {}, !.stray = <<>>, !.crl = FALSE, !.idleOk = TRUE, !.lastfail = <<-1, -1>>]
+                      !.owed = {}, !.stray = <<>>, !.crl = FALSE, !.idleOk = TRUE, !.lastfail = <<-1, -1>>, !.eunc = FALSE]
 
 \* cat_service returned OK: nothing may be left to do
 Quiescent(m) ==
@@ -543,7 +546,7 @@ Quiescent(m) ==
                    ELSE IF m1.expC # <<>> \/ m1.expE # <<>> \/ m1.H # {} THEN "output is still owed"
                    ELSE IF m1.q # <<>> \/ m1.eph # "idle" THEN "an event is still pending"
                    ELSE ""
-       IN IF what = "" THEN [m1 EXCEPT !.eclosing = {}, !.emaybe = 0, !.idleOk = TRUE, !.lastfail = <<-1, -1>>]
+       IN IF what = "" THEN [m1 EXCEPT !.eclosing = {}, !.emaybe = 0, !.idleOk = TRUE, !.lastfail = <<-1, -1>>, !.eunc = FALSE]
           ELSE Resync(AddBad(m1, IF what = "an event is still pending" THEN "C15,C13" ELSE "C15", <<"cat_service returned OK but", what>>))
 
 MonSvc(m, rec) ==
